@@ -829,13 +829,13 @@ impl Property for C08 {
     }
     fn cases(&self, tier: Tier) -> u64 {
         match tier {
-            Tier::Quick => 600,
+            Tier::Quick => 3_000,
             Tier::Thorough => 600_000,
         }
     }
     fn min_nontrivial(&self, tier: Tier) -> u64 {
         match tier {
-            Tier::Quick => 5_000,
+            Tier::Quick => 25_000,
             Tier::Thorough => 5_000_000,
         }
     }
